@@ -21,6 +21,7 @@ package digest
 import (
 	"bytes"
 	"fmt"
+	"os"
 	"strings"
 	"testing"
 
@@ -32,6 +33,14 @@ type bReport struct {
 	t     *testing.T
 	evals int
 	fails int
+}
+
+// bDeeper: the thorough tier (VERIF_TIER=thorough) raises every length bound by one.
+func bDeeper() int {
+	if os.Getenv("VERIF_TIER") == "thorough" {
+		return 1
+	}
+	return 0
 }
 
 func (r *bReport) violation(format string, a ...interface{}) {
@@ -93,7 +102,7 @@ func bValidName(s string) bool {
 }
 
 func bNames() (valid, invalid []string) {
-	all := bAllStrings("ab-/", 6)
+	all := bAllStrings("ab-/", 6+bDeeper())
 	all = append(all, "hello/world-wide/x", "acme-internal/team-a/ci-1")
 	for _, k := range bReserved {
 		all = append(all, k, "a/"+k, k+"/a", "a/"+k+"/b", k+"x", "x"+k)
@@ -221,7 +230,7 @@ func TestBoundedDigestKeys(t *testing.T) {
 	r := &bReport{t: t}
 	// keys of two digests are equal exactly when the digests agree on function,
 	// hash, size and (for instance-aware keys) instance name
-	names := bAllStrings("ab-/", 4)
+	names := bAllStrings("ab-/", 4+bDeeper())
 	names = append(names, "acme-internal", "acme", "org/team-a", "org/team", "a-b/c-d", "a-b/c", "a/b-c")
 	var valid []string
 	for _, n := range names {
@@ -317,7 +326,7 @@ func TestBoundedResourceNameParsersNeverPanic(t *testing.T) {
 			walk(append(append([]string(nil), prefix...), v), depth-1)
 		}
 	}
-	walk(nil, 6)
+	walk(nil, 6+bDeeper())
 	// malformed hashes and sizes are rejected
 	fn := MustNewFunction("a", remoteexecution.DigestFunction_MD5)
 	for _, h := range []string{"", "8b1a9953c4611296a827abf8c47804d", "8b1a9953c4611296a827abf8c47804d7a", "8B1A9953C4611296A827ABF8C47804D7", "8b1a9953c4611296a827abf8c47804dg", "8b1a9953c4611296a827abf8c47804d "} {
@@ -374,7 +383,7 @@ func TestBoundedTrieAndPatcher(t *testing.T) {
 	r := &bReport{t: t}
 	pool := []string{"", "a", "a/b", "a/b/c", "ab", "b", "a/bc"}
 	queries := []string{}
-	for _, n := range bAllStrings("abc/", 5) {
+	for _, n := range bAllStrings("abc/", 5+bDeeper()) {
 		if bValidName(n) {
 			queries = append(queries, n)
 		}
